@@ -9,7 +9,7 @@ import sys
 log = open(sys.argv[1]).read().splitlines()
 by = collections.defaultdict(list)
 for line in log:
-    m = re.match(r"\[(C\d\d(?:-\d)?)\] (.*)", line)
+    m = re.match(r"\[(C\d\d(?:-\d+)?)\] (.*)", line)
     if m:
         by[m.group(1)].append(m.group(2))
 rows, counts = [], collections.Counter()
